@@ -7,7 +7,7 @@
     slot policy, whether the model can shift, whether the cache can erase partially / resume, and the EOS token;
     [parallel] is the number of slots.  All of these are universally quantified. *)
 From Coq Require Import List ZArith Bool Arith Lia.
-From V Require Import Slots.Model Slots.ProofsKv Slots.ProofsSlots Slots.ProofsBatch.
+From V Require Import Slots.Model Slots.ProofsKv Slots.ProofsSlots Slots.ProofsBatch Slots.ProofsRef Slots.ProofsNoFail.
 Import ListNotations.
 Open Scope Z_scope.
 
@@ -57,6 +57,94 @@ Proof.
     destruct (submit_fresh_slot cfg st prompt np keep stops idx (conj Hm Hin) H) as (q & E & _ & Hfresh). eauto.
 Qed.
 Print Assumptions C07_no_double_use_reachable.
+
+(** The effective input of a request is a function of the request alone: [ref_win F cfg keep W0 j] is the window
+    from which its j-th token is sampled, where W0 = prompt after truncation, keep = normalised keep count (both
+    computed by NewSequence from prompt, keep and the context size: [C07_submit_records_request]); feeding a token
+    into a full window first discards [shift_discard] inputs after the first [keep].
+    After any history, for every token sampled for any request, the history the cache exposed to the batch entry
+    that produced the logits is exactly the enumeration of that window - nothing foreign, nothing missing, every
+    position right - and the token is the network's answer to it. *)
+Theorem C07_model_sees_effective_input :
+  forall (F : list (Z * tok) -> tok) cfg parallel ops,
+    1 <= numCtx cfg ->
+    let st := run F cfg (init parallel) ops in
+    forall r W0 keep, In (EvSubmit r W0 keep) (log st) ->
+      forall j t vis, nth_error (samples_of r (log st)) j = Some (t, vis) ->
+        vis = enumerate 0 (ref_win F cfg keep W0 j) /\ t = F vis.
+Proof.
+  intros F cfg parallel ops Hc st. destruct (reachable_inv2 F cfg parallel ops Hc) as (_ & Hlok & _). exact Hlok.
+Qed.
+Print Assumptions C07_model_sees_effective_input.
+
+Theorem C07_submit_records_request :
+  forall cfg st prompt np keep stops idx,
+    snd (submit cfg st prompt np keep stops) = RSubmitted idx ->
+    exists inputs keep', new_sequence cfg prompt keep = Ok (inputs, keep') /\
+      log (fst (submit cfg st prompt np keep stops)) = log st ++ [EvSubmit (nreq st) inputs keep'].
+Proof. exact submit_logs. Qed.
+Print Assumptions C07_submit_records_request.
+
+(** Same as a fresh runner: two requests with the same effective input (same prompt after truncation, same keep), in
+    ANY two histories - in particular one of them alone on a fresh server with an empty cache, with any number of
+    slots - are given the same tokens, position by position, from the same visible histories. *)
+Theorem C07_same_as_fresh :
+  forall (F : list (Z * tok) -> tok) cfg, 1 <= numCtx cfg ->
+    forall parallel ops parallel' ops' r r' W0 keep,
+      let st := run F cfg (init parallel) ops in
+      let st' := run F cfg (init parallel') ops' in
+      In (EvSubmit r W0 keep) (log st) -> In (EvSubmit r' W0 keep) (log st') ->
+      forall j t vis t' vis',
+        nth_error (samples_of r (log st)) j = Some (t, vis) ->
+        nth_error (samples_of r' (log st')) j = Some (t', vis') ->
+        t = t' /\ vis = vis'.
+Proof.
+  intros F cfg Hc parallel ops parallel' ops' r r' W0 keep st st' H1 H2 j t vis t' vis' E1 E2.
+  destruct (C07_model_sees_effective_input F cfg parallel ops Hc r W0 keep H1 j t vis E1) as [A1 A2].
+  destruct (C07_model_sees_effective_input F cfg parallel' ops' Hc r' W0 keep H2 j t' vis' E2) as [B1 B2].
+  subst. auto.
+Qed.
+Print Assumptions C07_same_as_fresh.
+
+(** non-vacuity: the history that exposes the pinned defect (fork a prefix into the second slot, overflow the fork so
+    that the shift fails on shared cells and the inputs are reprocessed), with the harness's network: request 1 is
+    accepted, six tokens are sampled for it, and alone on a fresh one-slot server it is given the same six. *)
+Definition ex_cfg : config := mkCfg 8 8 true true true true (-1).
+Definition ex_ops : list op :=
+  [Submit [1;2;3;4;5;0] 1 0 []; Step; Step; Submit [1;2;3;4;5;1] 6 0 []] ++ repeat Step 9.
+Definition ex_fresh : list op := Submit [1;2;3;4;5;1] 6 0 [] :: repeat Step 9.
+Example C07_example_fork_overflow :
+  In (EvSubmit 1 [1;2;3;4;5;1] 0) (log (run (hash_vis 6) ex_cfg (init 2) ex_ops)) /\
+  In (EvSubmit 0 [1;2;3;4;5;1] 0) (log (run (hash_vis 6) ex_cfg (init 1) ex_fresh)) /\
+  map fst (samples_of 1 (log (run (hash_vis 6) ex_cfg (init 2) ex_ops))) = [3;1;3;5;4;1] /\
+  map fst (samples_of 0 (log (run (hash_vis 6) ex_cfg (init 1) ex_fresh))) = [3;1;3;5;4;1] /\
+  (* the fork's shift failed: its inputs were emptied and reprocessed *)
+  s_inputs (nth_slot (slots (run (hash_vis 6) ex_cfg (init 2) (firstn 8 ex_ops))) 1) = [].
+Proof. vm_compute. repeat split; auto. Qed.
+
+(** what the repair changed: on the same cache state the pinned reset Remove(seq, 0, -1) leaves the fork's sequence
+    populated (its first cell is shared, so the scan stops at once) while slot.Inputs is emptied; the repaired reset
+    Remove(seq, 0, math.MaxInt32) empties it. *)
+Example C07_pinned_reset_leaves_cells :
+  let st := run (hash_vis 6) ex_cfg (init 2) (firstn 7 ex_ops) in
+  kv_remove_range ex_cfg (kv st) 1 0 4 = None /\
+  view (kv_reset_pinned (kv st) 1) 1 = [(0,1);(1,2);(2,3);(3,4);(4,5);(5,1);(6,3);(7,1)] /\
+  view (kv_trunc (kv st) 1 0) 1 = [].
+Proof. vm_compute. repeat split; auto. Qed.
+
+(** After any history, neither accepting a request nor a batch fails: LoadCacheSlot finds a slot whenever a sequence
+    entry is free (no "no available cache slots", no nil dereference in findBestCacheSlot), ShiftCacheSlot's
+    "keep exceeds context" is unreachable, and the stop handling never slices with a negative bound (this last part
+    is what fixes/C07-stop-trim-negative.patch repairs; a panic in processBatch kills every in-flight request). *)
+Theorem C07_no_runner_failure :
+  forall (F : list (Z * tok) -> tok) cfg parallel ops o,
+    1 <= numCtx cfg ->
+    match snd (step_op F cfg (run F cfg (init parallel) ops) o) with
+    | RPanic | RFatal | RLoadErr => False
+    | _ => True
+    end.
+Proof. intros F cfg parallel ops o Hc. apply step_op_no_failure; auto. apply reachable_inv; auto. Qed.
+Print Assumptions C07_no_runner_failure.
 
 (** a full context always frees at least one entry, and never more than what is not kept *)
 Theorem C07_shift_discard_bounds :
